@@ -182,7 +182,9 @@ func workerBatch(t *testing.T, a *workerArgs, out *workerOut, start time.Time) {
 			out.Probes[k] += n
 		}
 		if res.Nontrivial {
-			if !sigs[res.Sig] {
+			// runs that consist of many sub-evaluations report one signature per
+			// non-trivial sub-evaluation; otherwise the run signature counts
+			if len(res.Sigs) == 0 && !sigs[res.Sig] {
 				sigs[res.Sig] = true
 				out.Nontrivial++
 			}
@@ -796,7 +798,7 @@ func runRaceMode(prop string, seed uint64, secs int) (runs, races int, report st
 	}
 	cmd := exec.Command(bin)
 	cmd.Env = append(os.Environ(), fmt.Sprintf("VERIF_RACE=%s:%d:%d", prop, seed&0xffffffff, secs), "GORACE=halt_on_error=0")
-	timer := time.AfterFunc(time.Duration(secs)*time.Second*3+2*time.Minute, func() { cmd.Process.Kill() })
+	timer := time.AfterFunc(time.Duration(secs)*time.Second*2+6*time.Minute, func() { cmd.Process.Kill() })
 	out, _ := cmd.CombinedOutput()
 	timer.Stop()
 	text := string(out)
